@@ -7,6 +7,8 @@ Definition dispatch_head : list string :=
   ["op := code[ip]";
    "ip++";
    "if p.checkCtx { err := p.checkContext() if err != nil { return err } }"].
+Definition record_loop_head : list string :=
+  ["if p.checkCtx { err := p.checkContext() if err != nil { return err } }"].
 Definition check_context_body : list string :=
   ["p.ctxOps++";
    "if p.ctxOps < checkContextOps { return nil }";
@@ -108,6 +110,7 @@ Definition poll_sites : list (string * string) :=
   [("interp.executeAll", "checkContextNow");
    ("interp.executeAll", "checkContextNow");
    ("interp.executeAll", "checkContextNow");
+   ("interp.execActions", "checkContext");
    ("interp.checkContext", "checkContextNow");
    ("interp.execute", "checkContext")].
 Definition ctxops_writes : list (string * string) :=
